@@ -595,4 +595,171 @@ Proof.
        | right; right; split; [apply HZ'; exact HZ | exact T0] ].
 Qed.
 
+
+(* ------------------------------------------------------------------ no running plan is left suspended:
+   every started user plan on the stack is resumed again (with the exception, a follow-up exception, a value if a
+   plan above it swallowed the exception) or closed by the finally block, before the task is done *)
+Definition live (pid : nat) (s : st) : Prop := exists p, In (FUser pid p true) (plans s).
+Definition taskpc (p : pcs) : Prop := match p with PcSleep0 | PcCmd _ | PcPaused | PcFinalSleep _ => True | _ => False end.
+Definition given (pid : nat) (o : list obs) : Prop := exists i, In (OPlanIn pid i) o.
+
+Lemma given_app_l pid a b : given pid a -> given pid (a ++ b).
+Proof. intros [i H]. exists i. apply in_or_app; left; exact H. Qed.
+Lemma given_app_r pid a b : given pid b -> given pid (a ++ b).
+Proof. intros [i H]. exists i. apply in_or_app; right; exact H. Qed.
+
+Lemma close_frames_live (s : st) pid p : In (FUser pid p true) (plans s) -> In (OPlanIn pid Close) (close_frames presume s).
+Proof.
+  intros Hin. unfold close_frames. apply in_flat_map. exists (FUser pid p true). split; [apply in_rev; rewrite rev_involutive; exact Hin|].
+  cbn [frame_resume]. destruct (presume p Close); left; reflexivity.
+Qed.
+
+Lemma finalize_live (s : st) r pend s' o pid :
+  live pid s -> finalize presume dev s r pend = (s', o) -> given pid o.
+Proof.
+  intros [p Hin]. unfold finalize.
+  destruct (stop_movables dev (set_pardon s true)) as [s2 o2] eqn:E2.
+  match goal with |- context [fold_left ?f ?l ?a] => destruct (fold_left f l a) as [s3 o3] eqn:E3 end.
+  apply RE_Inv.stop_movables_same in E2. apply RE_Inv.unstage_fold_same in E3.
+  assert (Hp3 : plans s3 = plans s).
+  { destruct E2 as [[E2 _] _]. destruct E3 as [[E3 _] _]. unfold RE_Inv.same in *. simp_st.
+    destruct E2 as (_ & _ & _ & _ & _ & X & _). destruct E3 as (_ & _ & _ & _ & _ & Y & _). congruence. }
+  assert (Hcf : In (OPlanIn pid Close) (close_frames presume (set_bundlers (set_staged s3 []) []))).
+  { apply close_frames_live with (p := p). simp_st. rewrite Hp3. exact Hin. }
+  unfold set_state. cbv zeta.
+  match goal with |- context [allowed ?a Idle] => destruct (allowed a Idle) end; intros H; inv H; exists Close;
+    apply in_or_app; right; apply in_or_app; right; apply in_or_app; right; apply in_or_app; left; exact Hcf.
+Qed.
+
+Lemma live_same pid (s s' : st) : plans s' = plans s -> live pid s -> live pid s'.
+Proof. unfold live. intros ->. auto. Qed.
+Lemma live_push pid (s s' : st) f : plans s' = f :: plans s -> live pid s -> live pid s'.
+Proof. unfold live. intros -> [p H]. exists p. right; exact H. Qed.
+
+Lemma live_dstep (s : st) c r0 pid :
+  live pid s -> dstep s c = r0 ->
+  match r0 with
+  | inl (s', _, o) => live pid s' \/ given pid o
+  | inr (s', o) => (live pid s' /\ taskpc (pc s')) \/ given pid o
+  end.
+Proof.
+  intros HL H. destruct c; cbn [RE_Small.dstep] in H.
+  - (* CTop *)
+    unfold set_state in H. repeat (bmh H); subst r0;
+      repeat match goal with
+             | Hx : (if ?c then _ else _) = Some _ |- _ => destruct c; inv Hx
+             | Hx : Some _ = Some _ |- _ => inv Hx
+             | Hx : stop_movables _ _ = _ |- _ => apply RE_Inv.stop_movables_same in Hx; destruct Hx as [[Hx _] _]; unfold RE_Inv.same in Hx
+             | Hx : call_pausables _ _ _ = _ |- _ => apply RE_Inv.call_pausables_same in Hx; destruct Hx as [[[Hx _] _] _]; unfold RE_Inv.same in Hx
+             end; simp_st; left; try (split; [|exact I]);
+      (eapply live_same; [|exact HL]); simp_st;
+      repeat match goal with Hx : _ /\ _ |- _ => destruct Hx end; congruence.
+  - repeat (bmh H); subst r0; simp_st; left; try (split; [|exact I]); exact HL.
+  - (* CAfterSleep *)
+    destruct (resps s) as [|r rest] eqn:Er; [subst r0; left; exact HL|].
+    destruct (plans s) as [|top tl] eqn:Ep; [subst r0; left; exact HL|].
+    pose proof (dstep_aftersleep _ presume plan_of _ dev s r rest top tl Er Ep) as E. cbn [RE_Small.dstep] in E. rewrite Er, Ep in E.
+    rewrite E in H. clear E. cbv zeta in H.
+    destruct (as_state_fields P D s rest) as (_ & _ & _ & _ & F5 & _).
+    set (s2 := as_state P D s rest) in *. clearbody s2.
+    destruct (frame_resume presume top (as_input P D s2 r)) as [ou po] eqn:Ef.
+    destruct (as_post P D s2 (is_throw (as_input P D s2 r)) ou po) as [[s' c'] o] eqn:Ea. subst r0.
+    unfold live in HL. rewrite Ep in HL. destruct HL as [p [HL|HL]].
+    + (* the plan on top is resumed *)
+      right. subst top. cbn [frame_resume] in Ef.
+      assert (K : po = [OPlanIn pid (as_input P D s2 r)]).
+      { destruct (as_input P D s2 r); destruct (presume p _); inv Ef; reflexivity. }
+      assert (o = po) by (unfold as_post in Ea; repeat (bmh Ea); inv Ea; reflexivity). subst o. rewrite K. eexists; left; reflexivity.
+    + (* a plan further down stays where it is *)
+      left. exists p. unfold as_post in Ea. repeat (bmh Ea); inv Ea; simp_st; rewrite ?F5, ?Ep; cbn [List.tl]; try (right; exact HL); exact HL.
+  - (* CProcess *)
+    cbv zeta in H. destruct (process_pre_same P D s m) as (E2 & _). cbv zeta in E2.
+    match type of E2 with RE_Inv.same _ _ _ ?x => set (s2 := x) in * end. clearbody s2.
+    assert (HL2 : live pid s2) by (eapply live_same; [|exact HL]; unfold RE_Inv.same in E2; tauto).
+    destruct (match mcmd m with
+              | CStartSuspender sid pre post => exec_start_suspender plan_of dev s2 sid pre post
+              | _ => exec_cmd dev s2 m
+              end) as [[s3 cr] o3] eqn:Ex.
+    assert (K : live pid s3).
+    { destruct (mcmd m) eqn:Ec.
+      all: try (assert (Hnp : forall d0, mcmd m <> CPause d0) by (intros d0 Hd; rewrite Ec in Hd; discriminate Hd);
+                eapply live_same; [|exact HL2];
+                destruct (RE_Inv.exec_cmd_same _ _ _ _ _ _ _ _ Hnp Ex) as (_ & _ & _ & _ & _ & X & _); exact X).
+      - destruct (RE_Inv.exec_cmd_pause _ _ _ _ _ _ _ _ _ Ec Ex) as (e & o' & Hrp & _).
+        eapply live_same; [|exact HL2]. destruct (RE_Inv.request_pause_spec _ _ _ _ _ _ _ Hrp) as [[[Hs _] _]|Hs].
+        + unfold RE_Inv.same in Hs. tauto.
+        + unfold RE_Inv.pause_acc in Hs. tauto.
+      - destruct (RE_Inv.exec_start_suspender_spec _ _ _ _ _ _ _ _ _ _ _ Ex) as (_ & [E|[f E]]); unfold RE_Inv.same in E.
+        + eapply live_same; [|exact HL2]. tauto.
+        + eapply live_push; [|exact HL2]. destruct E as (_ & _ & _ & _ & _ & X & _). simp_st. exact X. }
+    destruct cr; subst r0; left; simp_st; [exact K | split; [exact K | exact I]].
+  - subst r0. left. destruct popped; exact HL.
+  - repeat (bmh H); subst r0; left; simp_st; try destruct popped; exact HL.
+  - repeat (bmh H); subst r0; left; simp_st; try (split; [|exact I]); exact HL.
+  - subst r0. destruct (finalize presume dev s r pending) as [s' o] eqn:Ef. right. eapply finalize_live; eassumption.
+Qed.
+
+Lemma live_task (s : st) s' o pid :
+  live pid s -> taskpc (pc s) -> task_step presume plan_of dev s = (s', o) -> nb o ->
+  (live pid s' /\ taskpc (pc s')) \/ given pid o.
+Proof.
+  intros HL Hpc H Hb. rewrite RE_Inv.task_step_tentry in H.
+  destruct (RE_Inv.tentry P presume D dev s) as [[[s1 c1] os1]|[s2 o2]] eqn:Et.
+  - assert (HL1 : live pid s1).
+    { unfold RE_Inv.tentry in Et. cbv zeta in Et. destruct (pc s) as [| | | | |k|r|r] eqn:Epc; try contradiction.
+      - repeat (bmh Et); inv Et; exact HL.
+      - unfold set_state in Et. repeat (bmh Et); inv Et; try exact HL.
+        all: repeat match goal with Hx : (if ?c then _ else _) = Some _ |- _ => destruct c; inv Hx end; exact HL.
+      - destruct (must_cancel s); [inv Et; exact HL|]. destruct k as [| |sids|fs|rn dd z].
+        + inv Et; exact HL.
+        + destruct (request_pause (set_must_cancel s false) false) as [[sx ex] ox] eqn:Erp. inv Et.
+          eapply live_same; [|exact HL]. destruct (RE_Inv.request_pause_spec _ _ _ _ _ _ _ Erp) as [[[Hs _] _]|Hs].
+          * unfold RE_Inv.same in Hs. simp_st. tauto.
+          * unfold RE_Inv.pause_acc in Hs. simp_st. tauto.
+        + inv Et; exact HL.
+        + inv Et; exact HL.
+        + destruct (finish_read (mark_cached (set_must_cancel s false) rn dd) rn dd z []) as [[sx cr] ox] eqn:Efr. inv Et.
+          apply RE_Inv.finish_read_same in Efr. pose proof (RE_Inv.mark_cached_same P D (set_must_cancel s false) rn dd) as Em.
+          eapply live_same; [|exact HL]. destruct Efr as [Efr _]. destruct Em as [Em _]. unfold RE_Inv.same in *. simp_st.
+          destruct Efr as (_ & _ & _ & _ & _ & X & _). destruct Em as (_ & _ & _ & _ & _ & Y & _). congruence.
+      - destruct (must_cancel s); discriminate Et. }
+    revert Hb.
+    refine (RE_Small.drive_inv P presume plan_of D dev
+              (fun s c os => nb os -> live pid s \/ given pid os)
+              (fun s' o => nb o -> (live pid s' /\ taskpc (pc s')) \/ given pid o) _ _ _ _ _ _ _ _ _ _ H).
+    + intros s0 c0 os0 sa ca oa Q0 Hd Hbb. apply nb_app in Hbb. destruct Hbb as [Hb0 _].
+      destruct (Q0 Hb0) as [Q1|Q1]; [|right; apply given_app_l; exact Q1].
+      pose proof (live_dstep s0 c0 _ pid Q1 Hd) as [K|K]; [left; exact K | right; apply given_app_r; exact K].
+    + intros s0 c0 os0 sa oa Q0 Hd Hbb. apply nb_app in Hbb. destruct Hbb as [Hb0 _].
+      destruct (Q0 Hb0) as [Q1|Q1]; [|right; apply given_app_l; exact Q1].
+      pose proof (live_dstep s0 c0 _ pid Q1 Hd) as [K|K]; [left; exact K | right; apply given_app_r; exact K].
+    + intros s0 c0 os0 _ Hbb. exfalso. apply nb_app in Hbb. destruct Hbb as [_ Hbb]. inv Hbb. contradiction.
+    + intros _. left. exact HL1.
+  - inv H. unfold RE_Inv.tentry in Et. cbv zeta in Et. destruct (pc s) as [| | | | |k|r|r] eqn:Epc; try contradiction.
+    + repeat (bmh Et); discriminate Et.
+    + repeat (bmh Et); try discriminate Et. inv Et. exfalso. inv Hb. contradiction.
+    + destruct (must_cancel s); [discriminate Et|]. destruct k; repeat (bmh Et); discriminate Et.
+    + right. destruct (must_cancel s); inv Et; (eapply (finalize_live (set_must_cancel s false)); [exact HL | eassumption]).
+Qed.
+
+Lemma live_run pid evs : forall (s : st),
+  forallb cont_ev evs = true -> live pid s -> taskpc (pc s) -> nb (snd (run presume plan_of dev s evs)) ->
+  (live pid (fst (run presume plan_of dev s evs)) /\ taskpc (pc (fst (run presume plan_of dev s evs)))) \/
+  given pid (snd (run presume plan_of dev s evs)).
+Proof.
+  induction evs as [|e evs IH]; intros s Hc HL Hpc Hb; cbn [run] in *; [left; auto|].
+  cbn [forallb] in Hc. apply andb_true_iff in Hc. destruct Hc as [Hc1 Hc2].
+  destruct (step presume plan_of dev s e) as [s1 o1] eqn:Es.
+  destruct (run presume plan_of dev s1 evs) as [s2 o2] eqn:Er. cbn [fst snd] in *.
+  apply nb_app in Hb. destruct Hb as [Hb1 Hb2].
+  assert (K : (live pid s1 /\ taskpc (pc s1)) \/ given pid o1).
+  { destruct e as [a|a| | |defer|rs| | |sid pre post|sid|sid ok| |]; try discriminate Hc1.
+    2:{ cbn [step] in Es. eapply live_task; eassumption. }
+    all: assert (Hi : inert _ = true) by exact Hc1;
+         destruct (step_inert _ _ _ _ Hi Es) as (_ & _ & A2 & _ & A4 & _); left; split; [eapply live_same; eassumption | rewrite A2; exact Hpc]. }
+  destruct K as [[K1 K2]|K]; [|right; apply given_app_l; exact K].
+  specialize (IH s1 Hc2 K1 K2). rewrite Er in IH. cbn [fst snd] in IH.
+  destruct (IH Hb2) as [IH'|IH']; [left; exact IH' | right; apply given_app_r; exact IH'].
+Qed.
+
 End C10.
